@@ -179,24 +179,24 @@ func c05r3(c *Check) {
 	bufPar := cw.Params[1]
 	cfg := &PathCfg{
 		ConsistentFields: map[*types.Var]bool{pickleF: true},
-		Classify: func(in ssa.Instruction) []string {
+		// helpers of Conn (e.g. an extracted encode step) are expanded in place
+		Inline: inlineConnMethods,
+		ClassifyV: func(in ssa.Instruction, resolve func(ssa.Value) ssa.Value) []string {
 			call, ok := in.(*ssa.Call)
 			if !ok || calleeName(call.Common()) != nW {
 				return nil
 			}
-			arg := call.Call.Args[1]
+			arg := resolve(call.Call.Args[1])
 			switch {
-			case arg == bufPar:
+			case arg == ssa.Value(bufPar):
 				return []string{"write:line"}
 			case isGlobalLoad(arg, nlG):
 				return []string{"write:newline"}
 			}
-			// phi(buf, Pickle(dp)) resolved per path below: classify by structure
 			if pc, ok := arg.(*ssa.Call); ok && strings.HasSuffix(calleeName(pc.Common()), "destination.Pickle") {
 				return []string{"write:pickled"}
 			}
-			if phi, ok := arg.(*ssa.Phi); ok {
-				_ = phi
+			if _, ok := arg.(*ssa.Phi); ok {
 				return []string{"write:phi"}
 			}
 			return []string{"write:other"}
